@@ -194,3 +194,153 @@ def s3b_wake_after_write(facts, b, owner_suffix="EstablishedStreamData"):
             else:
                 out_ok.append((bi, f, a))
     return out_ok, out_bad
+
+
+# ---------------------------------------------------------------------------------------------------------
+# S5  lock re-entrancy: while a guard of lock L is live, nothing reachable acquires L again (parking_lot locks
+#     are not re-entrant: the task would deadlock on itself)
+LOCK_METHODS = {"write": "w", "lock": "w", "read": "r", "upgradable_read": "r"}
+
+
+def _lock_call(t):
+    c = callee(t)
+    if not c or c["name"] not in LOCK_METHODS:
+        return None
+    d = c["def"] + " " + c["path"]
+    if "RwLock" in d or "Mutex" in d:
+        return LOCK_METHODS[c["name"]]
+    return None
+
+
+def lock_sites(facts, b):
+    """[(bb, lock field name, mode, guard local)] for every lock acquisition in body b."""
+    out = []
+    tr = None
+    for bi, t in b.calls():
+        mode = _lock_call(t)
+        if not mode or b.blocks[bi]["cleanup"]:
+            continue
+        tr = tr or Tracer(facts, b)
+        fld = None
+        for x in walk(tr.operand(t["args"][0])):
+            if x.kind == "field" and not x[2].isdigit():
+                fld = x[2]
+                break
+            if x.kind == "field" and x[2].isdigit() and strip(x[1]).kind == "param":
+                fld = b.upvar_names.get(int(x[2])) or fld
+        dest = t.get("dest") or {}
+        out.append((bi, fld or "?", mode, dest.get("l") if not dest.get("p") else None))
+    return out
+
+
+def _held_region(b, acq_bb, guard):
+    """Blocks executed while the guard acquired at acq_bb may still be live."""
+    guards = {guard}
+    changed = True
+    while changed:
+        changed = False
+        for blk in b.blocks:
+            for s in blk["stmts"]:
+                if s["k"] == "Assign" and s["rv"]["k"] == "Use":
+                    o = s["rv"]["ops"][0]
+                    if o["k"] == "move" and not o["p"].get("p") and o["p"]["l"] in guards and not s["lhs"].get("p"):
+                        if s["lhs"]["l"] not in guards:
+                            guards.add(s["lhs"]["l"])
+                            changed = True
+    rel = set()
+    for bi, blk in enumerate(b.blocks):
+        t = blk["term"]
+        if t["k"] == "Drop" and not t["place"].get("p") and t["place"]["l"] in guards:
+            rel.add(bi)
+        if t["k"] == "Call" and any(a["k"] == "move" and not a["p"].get("p") and a["p"]["l"] in guards for a in t["args"]):
+            rel.add(bi)
+    start = b.blocks[acq_bb]["term"].get("t")
+    if start is None:
+        return set(), rel
+    reg = b.reachable_from(start, cut=rel)
+    return set(x for x in reg if not b.blocks[x]["cleanup"]), rel
+
+
+def s5_lock_reentrancy(facts, crate):
+    """-> (violations, checked) ; violation = (body, acq_bb, lock, inner body/callee description, site bb)."""
+    direct = {}
+    edges = {}
+    for b in crate.bodies:
+        direct[b.dp] = set((f, m) for _, f, m, _ in lock_sites(facts, b))
+        cs = set()
+        for bi, t in b.calls():
+            c = callee(t)
+            if c:
+                for k in (c.get("res"), c["dp"]):
+                    if k and k in facts.by_dp:
+                        cs.add(k)
+        for blk in b.blocks:
+            for s in blk["stmts"]:
+                if s["k"] == "Assign" and s["rv"]["k"] == "Aggregate" and s["rv"]["agg"].get("a") in ("Closure", "Coroutine", "CoroutineClosure"):
+                    d = s["rv"]["agg"].get("def")
+                    if d in facts.by_dp:
+                        cs.add(d)
+        edges[b.dp] = cs
+    memo = {}
+
+    def acq(dp, stack=()):
+        if dp in memo:
+            return memo[dp]
+        if dp in stack:
+            return set()
+        r = set(direct.get(dp, ()))
+        for k in edges.get(dp, ()):
+            r |= acq(k, stack + (dp,))
+        if not stack:
+            memo[dp] = r
+        return r
+    viol, checked = [], 0
+    for b in crate.bodies:
+        for abb, fld, mode, g in lock_sites(facts, b):
+            if g is None or fld == "?":
+                continue
+            checked += 1
+            reg, rel = _held_region(b, abb, g)
+            for x in sorted(reg):
+                t = b.term(x)
+                inner = set()
+                desc = None
+                if t["k"] == "Call":
+                    m2 = _lock_call(t)
+                    if m2:
+                        for bb2, f2, mm, _ in lock_sites(facts, b):
+                            if bb2 == x:
+                                inner.add((f2, mm))
+                                desc = "a second acquisition in the same function"
+                    c = callee(t)
+                    if c:
+                        for k in (c.get("res"), c["dp"]):
+                            if k and k in facts.by_dp:
+                                inner |= acq(k)
+                                desc = desc or ("call to %s" % c["path"])
+                for s in b.blocks[x]["stmts"]:
+                    if s["k"] == "Assign" and s["rv"]["k"] == "Aggregate" and s["rv"]["agg"].get("a") in ("Closure", "Coroutine", "CoroutineClosure"):
+                        d = s["rv"]["agg"].get("def")
+                        if d in facts.by_dp and any(f2 == fld for f2, _ in acq(d)):
+                            inner |= acq(d)
+                            desc = "closure %s run under the guard" % facts.by_dp[d].path
+                for f2, m2 in inner:
+                    if f2 == fld and (mode == "w" or m2 == "w"):
+                        viol.append((b, abb, fld, desc, x))
+                        break
+    return viol, checked
+
+
+def s6_guard_across_await(facts, crate):
+    """-> [(body, acq_bb, lock, yield_bb)]: a blocking (non-async) lock guard that is live across an await."""
+    out = []
+    for b in crate.bodies:
+        for abb, fld, mode, g in lock_sites(facts, b):
+            if g is None:
+                continue
+            reg, rel = _held_region(b, abb, g)
+            for x in sorted(reg):
+                if b.term(x)["k"] == "Yield":
+                    out.append((b, abb, fld, x))
+                    break
+    return out
